@@ -25,8 +25,8 @@ ENV = dict(os.environ, GOFLAGS="-mod=mod", GOPROXY="off", GOSUMDB="off", GOTOOLC
 D = "internal/pkg/midi/device/"
 # file -> checks, most likely killer first
 FILES = {
-    D + "device.go": ["C03", "C04", "C02", "C01", "C13", "C14", "C08", "C07", "C05"],
-    D + "events.go": ["C08", "C06", "C07", "C01", "C02", "C14", "C13", "C04", "C05", "C16"],
+    D + "device.go": ["C03", "C04", "C02", "C01", "C13", "C14", "C08", "C07", "C05", "C17", "C16"],
+    D + "events.go": ["C08", "C06", "C07", "C01", "C02", "C14", "C13", "C04", "C05", "C17", "C16"],
     D + "config/parser.go": ["C10", "C09", "C08", "C05"],
     D + "config/event.go": ["C11", "C10"],
     D + "config/loader.go": ["C12"],
@@ -44,7 +44,7 @@ lock = threading.Lock()
 
 
 def run(cmd, **kw):
-    return subprocess.run(cmd, stdout=subprocess.PIPE, stderr=subprocess.STDOUT, text=True, **kw)
+    return subprocess.run(cmd, stdout=subprocess.PIPE, stderr=subprocess.STDOUT, text=True, errors="replace", **kw)
 
 
 def tag_of(wt):
